@@ -44,6 +44,8 @@ type Prop struct {
 type Doc struct {
 	Kind  string // l a o
 	Lit   string
+	Tok   string // token of a string scalar, chosen when the document is printed
+	Look  bool   // string scalar that must be drawn from the look-alike pool
 	Items []*Doc
 	Keys  []string
 }
@@ -52,8 +54,9 @@ var typeNames = []string{"t0", "t1", "t2", "t3"}
 
 // gen carries the PRNG of one type table (all random choices of the table and its documents).
 type gen struct {
-	r   *rand.Rand
-	mut string // kind of the last document mutation
+	r    *rand.Rand
+	mut  string // kind of the last document mutation
+	look bool   // the document printed last holds a look-alike string
 }
 
 func (g *gen) genNode(depth int, allowRef bool) *Node {
@@ -96,6 +99,14 @@ func (g *gen) genNode(depth int, allowRef bool) *Node {
 		return &Node{Kind: "any"}
 	}
 }
+
+// String tokens whose content looks like another JSON kind (the model says: a quoted token is a string, full stop),
+// plain and with escapes. Document string scalars are drawn from this pool every second time; a case whose document
+// holds one of them is validated 8 times by the real library and all repeats must agree (a type guess that depends
+// on map iteration order differs from call to call).
+var lookAlike = []string{`"a.b"`, `"1.5"`, `"1"`, `"-0"`, `"1e5"`, `"1.5e3"`, `"true"`, `"false"`, `"null"`, `"{"`, `"["`, `"{}"`, `"[]"`,
+	`""`, `" "`, `"0.0"`, `"."`, `"e"`, `"E"`, `"v1.2"`, `"-1.5E+2"`, `"[1.5]"`, `"{\"a\": 1.5}"`,
+	`"a\u002eb"`, `"1\u002e5"`, `"\u0031.5"`, `"tru\u0065"`, `"nul\u006c"`, `"\"1.5\""`, `"1.5\n"`, `"\u007b\u007d"`, `"\t1.0"`}
 
 var litText = map[string]string{"i": "1", "f": "1.5", "s": `"s"`, "b": "true", "n": "null"}
 
@@ -307,20 +318,34 @@ func (g *gen) mutateDoc(d *Doc) *Doc {
 	return d
 }
 
-func docText(d *Doc) string {
+// docText prints the document; a string scalar gets its token on first printing. The model request says `(l s)`
+// for every string whatever its content.
+func (g *gen) docText(d *Doc) string {
 	switch d.Kind {
 	case "l":
+		if d.Lit == "s" {
+			if d.Tok == "" {
+				d.Tok = litText["s"]
+				if d.Look || g.r.Intn(2) == 0 {
+					d.Tok = lookAlike[g.r.Intn(len(lookAlike))]
+				}
+			}
+			if d.Tok != litText["s"] {
+				g.look = true
+			}
+			return d.Tok
+		}
 		return litText[d.Lit]
 	case "a":
 		var xs []string
 		for _, it := range d.Items {
-			xs = append(xs, docText(it))
+			xs = append(xs, g.docText(it))
 		}
 		return "[" + strings.Join(xs, ", ") + "]"
 	default:
 		var xs []string
 		for i, k := range d.Keys {
-			xs = append(xs, `"`+k+`": `+docText(d.Items[i]))
+			xs = append(xs, `"`+k+`": `+g.docText(d.Items[i]))
 		}
 		return "{" + strings.Join(xs, ",") + "}"
 	}
@@ -530,8 +555,18 @@ func oneTable(seed int64) tableResult {
 			d = g.genDoc(2)
 			st = append(st, "doc_random")
 		}
-		dt := docText(d)
+		g.look = false
+		dt := g.docText(d)
 		v := validate(rootText, typeTexts, typeNames, dt)
+		if g.look {
+			st = append(st, "doc_with_lookalike_string")
+			for k := 1; k < 8; k++ {
+				if w := validate(rootText, typeTexts, typeNames, dt); w != v {
+					v = fmt.Sprintf("UNSTABLE: call 1 = %s, call %d = %s", v, k+1, w)
+					break
+				}
+			}
+		}
 		switch {
 		case v == "ACC":
 			st = append(st, "accepted")
